@@ -69,6 +69,18 @@ var verifC31Once sync.Once
 // when there is one. "" = the worker's TMPDIR. Override: VERIF_STORE_TMP.
 var verifC31Base string
 
+// verifC31Setup is called from TestVerifSim before any bubble exists (the
+// sweep compares real modification times with the real clock).
+func verifC31Setup() {
+	verifC31Once.Do(func() {
+		os.Setenv("SNAPD_USE_DELTAS_EXPERIMENTAL", "0")
+		os.Unsetenv("SNAPD_DEBUG")
+		os.Unsetenv("SNAPD_DEBUG_HTTP")
+		os.Unsetenv("SNAPPY_STORE_NO_CDN")
+		verifC31Base = verifPickBase()
+	})
+}
+
 func verifPickBase() string {
 	if v := os.Getenv("VERIF_STORE_TMP"); v != "" {
 		return v
@@ -744,13 +756,7 @@ func verifWritePartial(c *verifsim.Ctx, n *verifNet, kind int) {
 }
 
 func verifRunC31(c *verifsim.Ctx) {
-	verifC31Once.Do(func() {
-		os.Setenv("SNAPD_USE_DELTAS_EXPERIMENTAL", "0")
-		os.Unsetenv("SNAPD_DEBUG")
-		os.Unsetenv("SNAPD_DEBUG_HTTP")
-		os.Unsetenv("SNAPPY_STORE_NO_CDN")
-		verifC31Base = verifPickBase()
-	})
+	verifC31Setup()
 	t0 := time.Now()
 	root, err := os.MkdirTemp(verifC31Base, "verifdl-")
 	if err != nil {
